@@ -101,10 +101,23 @@ func parseEgressSocks5Request(data []byte) (*model.Request, error) {
 
 func (s *Server) rejectPrivateAndLoopbackIPAction(_ context.Context, in egress.Input, req *model.Request) egress.Action {
 	ip := req.DstAddr.IP
+	if req.Command == constant.Socks5ConnectCmd {
+		// Dialing an empty host or an unspecified IP address connects to the
+		// local system, so treat them as loopback destinations.
+		if len(ip) == 0 && req.DstAddr.FQDN == "" {
+			ip = net.ParseIP("127.0.0.1")
+		} else if ip.IsUnspecified() && ip.To4() != nil {
+			ip = net.ParseIP("127.0.0.1")
+		} else if ip.IsUnspecified() {
+			ip = net.ParseIP("::1")
+		}
+	}
 	if len(ip) == 0 && req.DstAddr.FQDN != "" {
 		// If we do a DNS lookup, we leak the destination domain name to the DNS server.
 		// For user privacy, we only check some well-known local domain names.
 		domainName := req.DstAddr.FQDN
+		// Host names are case insensitive.
+		domainName = strings.ToLower(domainName)
 		isWellKnownIPv4LocalDomainName := false
 		isWellKnownIPv6LocalDomainName := false
 		for _, d := range wellKnownIPv4LocalDomainNames {
